@@ -5,6 +5,31 @@ NOTES = ("Every claimed property: theorems in coq/Properties/<id>.v (only `exact
          "Print Assumptions), model in coq/Model, correspondence drivers in harness/. Known findings: KNOWN_FINDINGS.jsonl. See DESIGN.md.")
 NOT_APPLICABLE = {}
 META = {
+    "C02": {
+        "text": "Coq theorems over the publish handler's decision function (token validation, Referer parsing and URI templates as parameters): an update reaches "
+                "the transport only for a verified credential whose publish claim covers every topic ('*' anywhere), or in compat-7 mode for public updates; "
+                "every other outcome is 400/401 and changes nothing; canDispatch's early-return loop equals its specification. Tied to the code by an exhaustive "
+                "enumeration of the claim x topics x private x compat x body x transport table through real POSTs with effects observed.",
+        "design_ref": "DESIGN.md §5 C02",
+        "note": "trusted: Coq kernel + vm_compute; net/http form parsing (oracle), JWT verification (see C03), uritemplate oracle, Go drivers",
+        "technique": "Coq proof (decision-function case analysis, loop/spec equivalence by induction) + exhaustive differential correspondence evaluated in Coq",
+    },
+    "C04": {
+        "text": "Coq theorems over authorize(): header-only, query-when-no-header, the cookie CSRF rule, anonymous = no carrier, invalid credentials never "
+                "downgraded; with validate / Referer parsing as parameters. Tied to the code by the exhaustive product of carrier states on all three endpoint "
+                "kinds, the effective identity being observed through per-credential rights.",
+        "design_ref": "DESIGN.md §5 C04",
+        "note": "trusted: Coq kernel + vm_compute; net/http header/cookie/query parsing, url.Parse (oracle), JWT verification (see C03), Go drivers",
+        "technique": "Coq proof (case analysis of the decision function) + exhaustive differential correspondence evaluated in Coq",
+    },
+    "C08": {
+        "text": "Coq theorems: carrier precedence, header iff requested, and C08_truthful (for every history and requested id the reported id equals the requested "
+                "one exactly when replay resumes right after it, 'earliest' when everything is replayed, and differs otherwise). Tied to the code by exhaustive "
+                "carrier combinations and generated (truncated, duplicated) histories on both transports, header and replayed ids observed.",
+        "design_ref": "DESIGN.md §5 C08",
+        "note": "trusted: Coq kernel + vm_compute; net/http parsing; bbolt cursor order; Go drivers. Concurrent publishes during the scan are C07's subject.",
+        "technique": "Coq proof (induction over the history list) + differential correspondence evaluated in Coq",
+    },
     "C05": {
         "text": "Coq theorem C05_recipients_exact: for every template oracle, every add/remove/dispatch history and arbitrary forgetting by the memo cache, "
                 "each dispatch is handed to exactly the connected matching (and, if private, authorized) subscribers; plus the key codec round-trip over all "
